@@ -28,3 +28,8 @@ def run(res, tier, seed, replay):
     # every kind of target placement (page-aligned, straddling, low, forwarding stub, every alignment, deterministic trampoline at the window's ends, fake at the +-2 GiB edge)
     import arenalib as _al, random as _rnd
     histlib.check_histories(res, "c12", 0, seed + 120, "maps", extra_lines=_al.placement_suite(_rnd.Random(seed + 120), "pl", tier))
+    # crowded lifetimes: 9-24 installations alive in one injector
+    histlib.check_histories(res, "c12", 12 if tier == "quick" else 400, seed + 121, "maps", gen=histlib.gen_crowded_history)
+    # a replacement that IS the target (the function redirected to itself: never called while installed, values sampled at scope exit only)
+    selfred = [("sr0 r0,r1,fk0,fk1,fk2,fk3 I:r1:raw:0,I:r0:rawat:r0|I:r0:rawat:r0,I:r0:rawat:r0|I:r0:raw:1", [["I:r1:raw:0", "I:r0:rawat:r0"], ["I:r0:rawat:r0", "I:r0:rawat:r0"], ["I:r0:raw:1"]])]
+    histlib.check_histories(res, "c12", 0, seed + 122, "maps", extra_lines=selfred, novals=True)
